@@ -23,7 +23,17 @@
    Invariants used: Blocking.Who (which contains Conserve.WFx []: nobody is in two places; and NextOk: the customers
    finish_service may pick are customers of the node that are not blocked) and the new Qx []: a queued customer that is
    not blocked has previous_class = customer_class (that is what makes change_state_release, which subtracts at
-   previous_class, undo what change_state_accept added at customer_class).  No hypothesis on the draws is needed. *)
+   previous_class, undo what change_state_accept added at customer_class).  No hypothesis on the draws is needed.
+   Main statements (section 5, 7, 8):  TInv cf s := Who cf s /\ Qx [] s  is preserved (event_step_tinv, run_many_tinv) and
+     event_step_trackers / run_many_trackers : TInv cf s -> ... -> Tracked (calls ...) s s'
+   where Tracked says, for SystemPopulation, NodePopulation, NaiveBlocking (unconditionally), NodePopulationSubset and
+   GroupedNodePopulation (observed nodes / groups without repetition; sub_dup_refuted, grp_dup_refuted: needed), that
+   orun <step> calls (<true> s) = Some (<true> s') -- the tracker never raises and ends in the true state -- and for
+   NodeClassMatrix that it ends in the true state whenever it does not raise; with the additional invariant CR (every
+   customer's classes are indices of cf_prio; TInvC, preserved) NodeClassMatrix does not raise either
+   (event_step_class_matrix, run_many_class_matrix).  never_negative: every count held after any number of events is >= 0.
+   change_state_classchange (Chg) is given its update for every tracker but no stage-1 engine function emits it (class
+   change while queueing is outside the stage-1 scope).  MatrixBlocking (the global blockage order) is not covered. *)
 From Coq Require Import ZArith List Bool Lia Permutation.
 From RecordUpdate Require Import RecordUpdate.
 From CiwV Require Import Sx Prelude Routing.
